@@ -1631,25 +1631,22 @@ theorem parseLong_elan (num : α → String) (hnum : ∀ x, LongNum (num x).toLi
     Rd.parseLong (writeLong elanLayout num g lo hi).toArray = .ok (rawOf num g lo hi) :=
   parseLong_layout elanLayout elanLayout_ok num hnum g lo hi hkw hlab hname hcr
 
-/-- **long and short encodings of the same data open to the same result** (any long layout, LF or CRLF).  The hypotheses
-exclude exactly the cases in which the two readers DIFFER, each with a proved counter-example: a negative time
-(`hnumL`: `long_short_negative_counterexample`), a tier name with surrounding blanks (`hstr` on names:
-`long_short_name_blank_counterexample`), a multi-line name (`hname`: `long_short_name_newline_counterexample`), the keywords
-of A10 (`hkwL`, `hkwS`: `C01.parseLong_keyword_counterexample`, `C01.parseShort_keyword_counterexample`), no tier at all
-(`hne`: `C01.parseShort_no_tiers` — the short-format reader raises `IndexError`, the long-format one returns no tiers). -/
+/-- **long and short encodings of the same data open to the same result** (any long layout, LF or CRLF) — negative times
+included (`hnumL` admits a sign since fix A30: `long_short_negative_regression`), tier names with surrounding blanks or tabs
+included (no hypothesis on names since fix A31: `long_short_name_blank_regression`).  The remaining hypotheses exclude exactly
+the cases in which the two readers still DIFFER or are not both defined: a multi-line name (`hname`:
+`long_short_name_newline_counterexample`), the keywords of A10 (`hkwL`, `hkwS`: `C01.parseLong_keyword_counterexample`,
+`C01.parseShort_keyword_counterexample`), no tier at all (`hne`: `C01.parseShort_no_tiers` — the short-format reader raises
+`IndexError`, the long-format one returns no tiers); `hlab` (labels strip-invariant) is enforced by the tier constructors. -/
 theorem long_short_equal (L : Layout) (hok : L.ok = true) (num : α → String) (hnumL : ∀ x, LongNum (num x).toList)
     (hnumS : ∀ x, NumWord (num x)) (g : Tg α) (lo hi : α) (hne : g.tiers ≠ [])
-    (hkwL : ∀ t ∈ g.tiers, NoKwLong t) (hkwS : ∀ t ∈ g.tiers, NoKw t) (hstr : ∀ t ∈ g.tiers, Stripped' t)
+    (hkwL : ∀ t ∈ g.tiers, NoKwLong t) (hkwS : ∀ t ∈ g.tiers, NoKw t) (hlab : ∀ t ∈ g.tiers, StrippedLabels t)
     (hname : ∀ t ∈ g.tiers, NameLine t) (hcr : ∀ t ∈ g.tiers, NoCRLF t) :
     Rd.parseLong (writeLong L num g lo hi).toArray = Rd.parseShort (Txt.ofString (tgToShort num g lo hi)) ∧
     Rd.parseLong (crlfOf (writeLong L num g lo hi)).toArray = Rd.parseShort (Txt.ofString (tgToShort num g lo hi)) := by
-  have hlab : ∀ t ∈ g.tiers, StrippedLabels t := by
-    intro t ht s hs
-    apply hstr t ht s
-    cases t <;> simp only [labelsOf, texts, List.mem_cons] at hs ⊢ <;> exact Or.inr hs
   rw [parseLong_layout L hok num hnumL g lo hi hkwL hlab hname hcr,
     parseLong_layout_crlf L hok num hnumL g lo hi hkwL hlab hname hcr,
-    parseShort_emit num hnumS g lo hi hne hkwS hstr hcr]
+    parseShort_emit num hnumS g lo hi hne hkwS hlab hcr]
   exact ⟨rfl, rfl⟩
 
 /-! ## `includeEmptyIntervals = False` -/
@@ -1900,21 +1897,20 @@ theorem long_short_negative_regression :
     Rd.parseShort (Txt.ofString (tgToShort intS negTg (-3) 2)) = .ok (rawOf intS negTg (-3) 2) ∧
     Rd.parseLong (Txt.ofString (tgToLong intS negTg (-3) 2)) = .ok (rawOf intS negTg (-3) 2) ∧
     Rd.parseLong (Txt.ofString (tgToLong intS negTg (-3) 2)) = Rd.parseShort (Txt.ofString (tgToShort intS negTg (-3) 2)) := by
-  have hS := parseShort_emit intS intS_word negTg (-3) 2 negTg_hyps.1 negTg_hyps.2.1 negTg_hyps.2.2.1 negTg_hyps.2.2.2
+  have hS := parseShort_emit intS intS_word negTg (-3) 2 negTg_hyps.1 negTg_hyps.2.1 negTg_long_hyps.2.1 negTg_hyps.2.2.2
   have hL := parseLong_emit intS intS_long negTg (-3) 2 negTg_long_hyps.1 negTg_long_hyps.2.1 negTg_long_hyps.2.2
     negTg_hyps.2.2.2
   exact ⟨hS, hL, by rw [hS, hL]⟩
 
-/-- **a tier NAME with surrounding blanks: long and short encodings open to DIFFERENT textgrids** (hypothesis `Stripped'` of
-`long_short_equal`, on names).  The tier named `" a "` (a legal in-memory object — no constructor strips names — and a
-conformant file: `name = " a "`): the long-format reader returns the name as written, the short-format reader strips it.
-Replayed on praatio: `IntervalTier(" a ", [(0, 1, "x")], 0, 2)` saved and reopened gives `tierNames == (" a ",)` for
-"long_textgrid", "json", "textgrid_json" and `("a",)` for "short_textgrid". -/
-theorem long_short_name_blank_counterexample :
+/-- **a tier NAME with surrounding blanks, regression for A31 (fixed, db5fb4a): long and short encodings open to EQUAL
+textgrids**.  The tier named `" a "` (a legal in-memory object — no constructor strips names — and a conformant file:
+`name = " a "`): both readers return the name as written.  Before the fix the short-format reader stripped it:
+`IntervalTier(" a ", [(0, 1, "x")], 0, 2)` saved and reopened gave `tierNames == (" a ",)` for "long_textgrid", "json",
+"textgrid_json" and `("a",)` for "short_textgrid". -/
+theorem long_short_name_blank_regression :
     Rd.parseLong (Txt.ofString (tgToLong numN blankNameTg 0 2)) = .ok (rawOf numN blankNameTg 0 2) ∧
-    Rd.parseShort (Txt.ofString (tgToShort numN blankNameTg 0 2)) =
-      .ok ⟨"0", "2", [⟨"IntervalTier", "a", "0", "2", [["0", "1", "x"]]⟩]⟩ ∧
-    Rd.parseLong (Txt.ofString (tgToLong numN blankNameTg 0 2)) ≠ Rd.parseShort (Txt.ofString (tgToShort numN blankNameTg 0 2)) := by
+    Rd.parseShort (Txt.ofString (tgToShort numN blankNameTg 0 2)) = .ok (rawOf numN blankNameTg 0 2) ∧
+    Rd.parseLong (Txt.ofString (tgToLong numN blankNameTg 0 2)) = Rd.parseShort (Txt.ofString (tgToShort numN blankNameTg 0 2)) := by
   have hL : Rd.parseLong (Txt.ofString (tgToLong numN blankNameTg 0 2)) = .ok (rawOf numN blankNameTg 0 2) := by
     apply parseLong_emit numN numN_long blankNameTg 0 2
     · intro t ht
@@ -1935,8 +1931,7 @@ theorem long_short_name_blank_counterexample :
       subst ht
       simp only [NameLine, nameOf]; decide
     · exact blankName_hyps.2.2
-  refine ⟨hL, parseShort_name_blank.1, fun he => ?_⟩
-  exact parseShort_name_blank.2 (he ▸ hL)
+  exact ⟨hL, parseShort_name_blank_regression.2, by rw [hL, parseShort_name_blank_regression.2]⟩
 
 /-- one point tier named `a⏎b`, no points -/
 def nlNameTg : Tg Nat := ⟨[.P ⟨"a\nb", [], 0, 1⟩], some 0, some 1⟩
@@ -1950,10 +1945,11 @@ theorem long_short_name_newline_counterexample :
     isParsingError (Rd.parseLong (Txt.ofString (tgToLong numN nlNameTg 0 1))) = true := by
   refine ⟨?_, C01.parseLong_name_newline_counterexample⟩
   apply parseShort_emit numN numN_word nlNameTg 0 1 (by simp [nlNameTg]) <;> intro t ht <;>
-    simp only [nlNameTg, List.mem_cons, List.not_mem_nil, or_false] at ht <;> subst ht <;> intro s hs <;>
-    simp only [texts, List.map_nil, List.mem_cons, List.not_mem_nil, or_false] at hs <;> subst hs
-  · exact segOK_of_occs _ (by decide) (by decide)
-  · rw [pyStrip_eq_iff]; exact noEdge_of_stripList _ (by decide)
-  · decide
+    simp only [nlNameTg, List.mem_cons, List.not_mem_nil, or_false] at ht <;> subst ht <;> intro s hs
+  · simp only [texts, List.map_nil, List.mem_cons, List.not_mem_nil, or_false] at hs; subst hs
+    exact segOK_of_occs _ (by decide) (by decide)
+  · simp [labelsOf] at hs
+  · simp only [texts, List.map_nil, List.mem_cons, List.not_mem_nil, or_false] at hs; subst hs
+    decide
 
 end C03
